@@ -240,13 +240,10 @@ def check_program(job):
     prog = job["prog"]
     text = S.show(prog)
     base = {"id": job["id"], "program": text, "nontrivial": True}
-    try:
-        with warnings.catch_warnings():
-            warnings.simplefilter("ignore")
-            m, sigs, domains = S.build(prog)
-            sim = symsim.SymSim(m)
-    except (SyntaxError, TypeError, ValueError, IndexError, NameError) as ex:
-        return [dict(base, kind="unconstructible", status="skipped", detail=f"{type(ex).__name__}: {ex}")]
+    built, sim, problem = symsim.construct_or_report(lambda: S.build(prog), base, {"prog": prog, "state": {}, "rst": 0})
+    if problem is not None:
+        return [problem]
+    m, sigs, domains = built
     oracle = refstmt.StmtOracle(prog)
     cd = domains["sync"]
     fsms = prog.get("fsms", {})
